@@ -46,5 +46,6 @@ extern "C" {
 void vf_fs_add(const char* path, int kind, const char* target);   // kind 1 directory, 2 file, 3 symbolic link to target
 int vf_fs_kind(const char* path);                                 // 0 absent, 1 directory, 2 file, 3 symbolic link
 void vf_fs_fail(const char* call, unsigned nth, int err);         // the nth call of mkdir/rmdir/unlink fails with err
+unsigned vf_fs_open_fds(void);                                        // file descriptors of the model that are still open
 unsigned vf_fs_touched_outside(const char* root);                 // unlink/rmdir calls issued for paths outside root
 }
